@@ -74,7 +74,7 @@ class Obs(object):
                     self.p.set_variable(k, v)
                 value_of(self.p, f)
         for qi, (mode, kind, inp, f1, f2, vars) in enumerate(q):
-            if qi % 4 == 3:       # computed arguments: whole numbers held as floats (exactly, below 2^53)
+            if qi % 4 == 3 and kind != 'factrel':       # computed arguments: whole numbers held as floats (exactly, below 2^53)
                 vars = {k: (float(v) if isinstance(v, int) and not isinstance(v, bool) and abs(v) < 2 ** 53 else v) for k, v in vars.items()}
                 inp = dict(inp, floats=1)
             for k, v in vars.items():
@@ -146,6 +146,7 @@ def main(tier, replay=None):
          'int': lambda: O.int1(i['f'], F(i['x'])), 'qm': lambda: O.qm(F(i['n']), F(i['d'])), 'fact': lambda: O.fact(i['n']),
          'hex': lambda: O.hex(N(i)), 'base': lambda: O.base(N(i), i['r']), 'roman': lambda: O.roman(i['n'], i['form']),
          'cplx': lambda: O.cplx(i['a'], i['b']),
+         'factrel': lambda: O.add('factrel', {'n': i['n'], 'm': i['m']}, '{FACTDOUBLE(vn)=vn*FACTDOUBLE(vn-2),FACT(vm)=vm*FACT(vm-1),FACTDOUBLE(vn)>FACTDOUBLE(vn-2),FACT(vm)>0}', vn=i['n'], vm=i['m']),
          'factfrac': lambda: O.add('factfrac', {'x': i['x']}, '{FACT(vx),FACTDOUBLE(vx)}', vx=pynum(F(i['x'])))}[k]()
         pr = c.get('prior')
         O.flush(None, [(pr['formula'], pr['vars'])] if pr else None)
@@ -210,6 +211,11 @@ def main(tier, replay=None):
     for form in range(0, 5):
         for n in (range(1, 4000) if not quick else list(range(1, 4000, 9)) + [4, 9, 14, 40, 45, 49, 90, 99, 400, 490, 495, 499, 900, 990, 995, 999, 1000, 2000, 3000, 500, 1999, 3999]):
             O.roman(n, form)
+    for a, b in ((1234567, 2), (3, -2147483647), (1000000007, -1000000009), (999999, 1000000), (123456789, 987654321), (-7654321, 1234567)):
+        O.cplx(a, b)
+    # factorials far beyond what is multiplied out here: the recurrence n! = n (n-1)!, n!! = n (n-2)!! decides them
+    for n, m in ((1201, 1000), (3000, 2001), (5001, 4000), (19999, 9999), (902, 901), (20000, 10000)):
+        O.add('factrel', {'n': n, 'm': m}, '{FACTDOUBLE(vn)=vn*FACTDOUBLE(vn-2),FACT(vm)=vm*FACT(vm-1),FACTDOUBLE(vn)>FACTDOUBLE(vn-2),FACT(vm)>0}', vn=n, vm=m)
     for a in (range(-99, 100) if not quick else range(-99, 100, 11)):
         for b in (range(-99, 100) if not quick else (-99, -1, 0, 1, 7, 99)):
             O.cplx(a, b)
